@@ -1,7 +1,7 @@
 (* EngineRun.v — wire entry points for Cond / Target / Policy / PolicySet /
    Compiler / Oblig / Engine (runner "engine"). *)
 From Coq Require Import ZArith List Bool String Ascii.
-From Rbacx Require Import Value Wire Num Time Cond Target Policy PolicySet Compiler Oblig Engine PolicyProofs PolicySetProofs.
+From Rbacx Require Import Value Wire Num Time Cond Target Policy PolicySet Compiler Oblig Engine PolicyProofs PolicySetProofs Schema.
 Import ListNotations.
 Local Open Scope string_scope.
 
@@ -194,6 +194,17 @@ Definition run_facts (args : list value) : value :=
   | _ => vtag "badargs" []
   end.
 
+Definition run_schema (args : list value) : value :=
+  match args with
+  | [p] => VBool (schema_valid p)
+  | _ => vtag "badargs" []
+  end.
+Definition run_cond_valid (args : list value) : value :=
+  match args with
+  | [c] => VBool (cond_valid c)
+  | _ => vtag "badargs" []
+  end.
+
 Definition run_parse_dt (args : list value) : value :=
   match args with
   | [VBool strict; x] => match parse_dt strict x with
@@ -213,6 +224,7 @@ Definition entries : list (string * (list value -> value)) :=
    ("policy.evaluate", run_evaluate); ("policyset.decide", run_decide_set);
    ("compiler.decide", run_compiled); ("oblig.check", run_check);
    ("engine.eval", run_engine); ("engine.facts", run_facts);
+   ("schema.valid", run_schema); ("schema.cond", run_cond_valid);
    ("time.parse_dt", run_parse_dt); ("value.str", run_py_str)].
 
 Definition run_line : string -> string := run_with entries.
